@@ -245,16 +245,22 @@ def run(tier, seed):
     pins = [Case("c05known_" + name, src, meta={"pin": name}) for name, src in KNOWN_PINS]
     st = selftest.case("selftest_c05")
     ws = core.Workspace(PROP, "x")
-    ws.extend(cases + pins + [st])
+    # a concrete-deps fn that returns a future without being `async fn`: the leaf trait's Impl<T> forwarding has to reach the fn
+    # when the method is *called* (the part of the body in front of the `async move` block), not when the future is polled
+    from .c06 import eager_future_case, check_eager_future
+    eager = [eager_future_case("c05e_%03d" % i, rng, shape="concrete_fn") for i in range(4)]
+    ws.extend(cases + eager + pins + [st])
     ws.write()
     b = ws.build()
     ws.run(b["exes"])
     selftest.verify(st)
     for c in cases:
         check_case(c, rep)
+    for c in eager:
+        check_eager_future(c, rep)
     for c in pins:
         if c.removed is not None:
             d = (c.removed["diags"] or [{}])[0]
             rep.violation(c.id, "compile:%s:%s" % (d.get("code"), d.get("message", "")[:70]), "does not compile: %s" % d.get("message", "")[:300], pinned=c.meta["pin"])
     core.floors(rep, calls_compared=3 * n, availability_probes=4 * n)
-    return rep.finish({c.id: c for c in cases + pins})
+    return rep.finish({c.id: c for c in cases + eager + pins})
